@@ -4,7 +4,8 @@
 (* it and appends the case with its expected results to vectors.ndjson.        *)
 EXTENDS Names, GenBase
 
-CONSTANTS Mode,        \* "strings" | "shapes" | "octets" | "names" | "texts" | "pairs" | "octpairs"
+CONSTANTS Mode,        \* "strings" | "shapes" | "octets" | "spell" | "spellshapes" | "escapes" | "crowd"   (C03)
+                       \* "names" | "texts" | "etexts" | "pairs" | "octpairs" | "crowdhelpers" | "crowdpairs"  (C19)
           N,           \* size bound of the universe (meaning depends on Mode)
           Shard, NShards
 
@@ -45,6 +46,58 @@ NamesOfSize(k) ==     \* names whose sum(len+1) = k
   UNION { { <<l>> \o r : l \in LabelsOfSize(m), r \in NamesOfSize(k - m - 1) } : m \in 1..(k-1) }
 NamesUpTo(k) == UNION { NamesOfSize(j) : j \in 0..k }
 
+\* Mode "spell" (C03): "the escaping is unambiguous for all 256 octet values in every position", read from the TEXT
+\* side: every octet value at first / middle / last position of a label, in each of the three spellings a text can
+\* use for it - the octet itself, \c, \DDD - whether or not the library would write it that way (UnpackDomainName
+\* writes one spelling per octet: canonical text never holds \046, \092, \097 ...).  The expectation is whatever
+\* Parse reads: a raw '.' separates, a raw '\' escapes its successor, \c with c a digit is that digit.
+\* v = <<octet, pos, form>>
+SpellOctet(o, form) == CASE form = 1 -> <<o>> [] form = 2 -> <<92, o>> [] OTHER -> <<92>> \o Dec3(o)
+SpellText(o, pos, form) == Concat([i \in 1..3 |-> IF i = pos THEN SpellOctet(o, form) ELSE <<120>>]) \o <<46, 121, 46>>
+
+\* Mode "spellshapes" (C03): the length limits met in each spelling - a label / a name just inside and just beyond the
+\* limits (MaxLabel = 63, MaxName = 255 here) whose every octet is spelled the same way (f = 1..3) or in turn raw, \c,
+\* \DDD (f = 4): an octet counts once however many characters spell it.  v = <<octet, form>> \o label lengths
+SpellShapes == { <<63, 63, 63, k>> : k \in 57..64 } \cup { <<k, 63, 63, 63>> : k \in 57..64 }      \* 251..258 wire octets
+               \cup { <<k>> : k \in 61..65 } \cup { <<k, 1>> : k \in 61..65 } \cup { <<1, k>> : k \in 61..65 }
+SpellForms == { <<97, 1>>, <<97, 2>>, <<97, 3>>, <<97, 4>>, <<200, 1>>, <<200, 2>>, <<200, 3>>, <<200, 4>>,
+                <<46, 2>>, <<46, 3>>, <<92, 2>>, <<92, 3>>, <<48, 1>>, <<48, 3>>, <<64, 1>>, <<64, 2>>, <<64, 3>>, <<64, 4>> }
+SpellLabel(len, o, f) == Concat([j \in 1..len |-> SpellOctet(o, IF f = 4 THEN (j % 3) + 1 ELSE f)])
+SpellShapeText(o, f, sh) == Concat([i \in 1..Len(sh) |-> SpellLabel(sh[i], o, f) \o <<46>>])
+
+\* Mode "escapes" (C03): all texts of <= N symbols over the spellings that denote an octet which is ALSO a piece of
+\* syntax ('.', '\', a digit) next to that syntax itself: \046 against \. and '.', \092 against \\ and '\', \048 against 0
+ESym == << <<97>>, <<48>>, <<46>>, <<92>>, <<92, 48, 52, 54>>, <<92, 48, 57, 50>>, <<92, 48, 52, 56>>, <<92, 92>>, <<92, 46>> >>
+EStrOf(q) == Concat([i \in 1..Len(q) |-> ESym[q[i]]])
+\* Mode "etexts" (C19): the valid ones among these texts given to the label helpers, which must take \046 and \092 for
+\* octets of a label (they are neither a separator nor the start of an escape)
+
+\* Modes "crowd" (C03), "crowdhelpers", "crowdpairs" (C19): names at and around the maximal NUMBER of labels.  MaxName
+\* octets hold (MaxName-1) \div 2 = 127 one-octet labels; the shapes universe above never has more than 6 labels, so the
+\* label count and the octet count reach their limits together only here.  A case is L labels of one octet of which
+\* t (at the front, at = 1, or at the back, at = 2) have two, filled with one octet o or (o = 0) with a cycle of
+\* letters / digits / specials / non-printables; wire length MaxName-5 .. MaxName+5, L within N of the maximum.
+MaxLabels == (MaxName - 1) \div 2
+Cyc == <<97, 46, 92, 200, 65, 48>>
+CrowdCases(k) == { c \in { <<o, L, t, at>> : o \in {0, 97, 46, 92, 200}, L \in (MaxLabels - k)..(MaxLabels + k), t \in 0..(2 * k), at \in 1..2 } :
+                     /\ (c[3] = 0 => c[4] = 1)
+                     /\ 1 + 2 * c[2] + c[3] >= MaxName - 5 /\ 1 + 2 * c[2] + c[3] <= MaxName + 5 }
+CrowdName(c) ==
+  LET o == c[1]  L == c[2]  t == c[3]  at == c[4]
+      len(i) == IF (at = 1 /\ i <= t) \/ (at = 2 /\ i > L - t) THEN 2 ELSE 1
+  IN [i \in 1..L |-> [j \in 1..len(i) |-> IF o = 0 THEN Cyc[((i + j) % 6) + 1] ELSE o]]
+CrowdShard(c) == (c[1] + c[2] + c[3] + c[4]) % NShards = Shard
+\* the second name of a pair, by its relation to the first (a valid crowded name)
+FlipCase(n) == [i \in 1..Len(n) |-> [j \in 1..Len(n[i]) |-> IF (n[i][j] >= 65 /\ n[i][j] <= 90) \/ (n[i][j] >= 97 /\ n[i][j] <= 122) THEN Flip20(n[i][j]) ELSE n[i][j]]]
+ReplaceLabel(n, k) == [i \in 1..Len(n) |-> IF i = k THEN <<122, 122, 122>> ELSE n[i]]
+CrowdPair(a, r) == CASE r = 1 -> <<a, a>>
+                     [] r = 2 -> <<a, Tail(a)>>
+                     [] r = 3 -> <<Tail(a), a>>
+                     [] r = 4 -> <<a, FlipCase(a)>>
+                     [] r = 5 -> <<a, ReplaceLabel(Tail(a), 1)>>            \* siblings under a parent of Len(a)-2 labels
+                     [] r = 6 -> <<a, ReplaceLabel(Tail(a), Len(a) - 1)>>   \* nothing in common
+                     [] OTHER -> <<a, ReplaceLabel(Tail(a), Len(a) \div 2)>> \* the lower half in common
+
 -----------------------------------------------------------------------------
 Init ==
   \/ Mode = "strings" /\ v \in UNION { [1..k -> 1..Len(Sym)] : k \in 0..N } /\ InShard(v)
@@ -54,6 +107,13 @@ Init ==
   \/ Mode = "texts"   /\ v \in UNION { [1..k -> 1..Len(TSym)] : k \in 1..N } /\ InShard(v) /\ Parse(TextOf(v)).st = "ok"
   \/ Mode = "octpairs" /\ \E c \in 0..255 : v = << <<<<120, c, 121>>, <<122>>>>, <<<<120, Flip20(c), 121>>, <<122>>>> >> /\ (c % NShards = Shard)
   \/ Mode = "pairs"   /\ \E a \in NamesUpTo(N), b \in NamesUpTo(N) : v = <<a, b>> /\ (Len(a) = 0 \/ InShard(a[1]))
+  \/ Mode = "spell"   /\ \E o \in 0..255, pos \in 1..3, f \in 1..3 : v = <<o, pos, f>> /\ (o % NShards = Shard)
+  \/ Mode = "spellshapes" /\ \E of \in SpellForms, sh \in SpellShapes : v = of \o sh /\ InShard(v)
+  \/ Mode = "escapes" /\ v \in UNION { [1..k -> 1..Len(ESym)] : k \in 0..N } /\ InShard(v)
+  \/ Mode = "etexts"  /\ v \in UNION { [1..k -> 1..Len(ESym)] : k \in 1..N } /\ InShard(v) /\ Parse(EStrOf(v)).st = "ok"
+  \/ Mode = "crowd"   /\ v \in CrowdCases(N) /\ CrowdShard(v)
+  \/ Mode = "crowdhelpers" /\ v \in CrowdCases(N) /\ CrowdShard(v) /\ ValidName(CrowdName(v))
+  \/ Mode = "crowdpairs"   /\ \E c \in CrowdCases(N), r \in 1..7 : v = c \o <<r>> /\ CrowdShard(c) /\ ValidName(CrowdName(c))
 Next == UNCHANGED v
 
 \* classification only (finding keys): how many leading labels of a refused name are themselves fine, i.e. may have been
@@ -85,17 +145,17 @@ NameVector(n) ==   \* a name given abstractly: expected text, wire and validity
 HelperVectorT(t) ==
   LET p == Parse(t)  n == p.labels IN
   [kind |-> "helpers", labels |-> n, text |-> t, isfq |-> p.fq, fqdn |-> FqdnSpec(t),
-   count |-> CountLabelSpec(t), split |-> SplitSpec(t), pieces |-> SplitDomainNameSpec(t),
-   prev |-> [k \in 1..(Len(n) + 1) |-> LET r == PrevLabelSpec(t, k - 1) IN <<r.i, IF r.start THEN 1 ELSE 0>>],
-   next |-> [k \in 1..Len(n) |-> LET r == NextLabelSpec(t, SplitSpec(t)[k]) IN <<r.i, IF r.end THEN 1 ELSE 0>>],
+   count |-> Len(p.labels), split |-> p.starts, pieces |-> SplitDomainNameSpec(t),
+   prev |-> [k \in 1..(Len(n) + 1) |-> LET r == PrevLabelFrom(p.starts, Len(t), k - 1) IN <<r.i, IF r.start THEN 1 ELSE 0>>],
+   next |-> [k \in 1..Len(n) |-> LET r == NextLabelFrom(p.starts, Len(t), p.starts[k]) IN <<r.i, IF r.end THEN 1 ELSE 0>>],
    canon |-> CanonicalSpec(t), rel |-> <<>>, relfq |-> FALSE]
 
 HelperVector(n) ==
-  LET t == Present(n) IN
+  LET t == Present(n)  p == Parse(t) IN     \* count, split: CountLabelSpec(t), SplitSpec(t) by their definitions
   [kind |-> "helpers", labels |-> n, text |-> t, isfq |-> TRUE, fqdn |-> t,
-   count |-> CountLabelSpec(t), split |-> SplitSpec(t), pieces |-> SplitDomainNameSpec(t),
-   prev |-> [k \in 1..(Len(n) + 1) |-> LET r == PrevLabelSpec(t, k - 1) IN <<r.i, IF r.start THEN 1 ELSE 0>>],
-   next |-> [k \in 1..Len(n) |-> LET r == NextLabelSpec(t, SplitSpec(t)[k]) IN <<r.i, IF r.end THEN 1 ELSE 0>>],
+   count |-> Len(p.labels), split |-> p.starts, pieces |-> SplitDomainNameSpec(t),
+   prev |-> [k \in 1..(Len(n) + 1) |-> LET r == PrevLabelFrom(p.starts, Len(t), k - 1) IN <<r.i, IF r.start THEN 1 ELSE 0>>],
+   next |-> [k \in 1..Len(n) |-> LET r == NextLabelFrom(p.starts, Len(t), p.starts[k]) IN <<r.i, IF r.end THEN 1 ELSE 0>>],
    canon |-> CanonicalSpec(t),
    rel |-> IF n = <<>> THEN <<>> ELSE Sub(t, 1, Len(t) - 1),
    relfq |-> IF n = <<>> THEN FALSE ELSE IsFqdnSpec(Sub(t, 1, Len(t) - 1))]
@@ -111,6 +171,13 @@ Out ==
   CASE Mode = "strings" -> Emit(StringVector(StrOf(v)))
     [] Mode = "shapes"  -> Emit(NameVector(NameOfShape(Tail(v), Head(v))))
     [] Mode = "octets"  -> Emit(NameVector(OctetName(v[1], v[2])))
+    [] Mode = "spell"   -> Emit(StringVector(SpellText(v[1], v[2], v[3])))
+    [] Mode = "spellshapes" -> Emit(StringVector(SpellShapeText(v[1], v[2], Sub(v, 3, Len(v)))))
+    [] Mode = "escapes" -> Emit(StringVector(EStrOf(v)))
+    [] Mode = "etexts"  -> Emit(HelperVectorT(EStrOf(v)))
+    [] Mode = "crowd"   -> Emit(NameVector(CrowdName(v)))
+    [] Mode = "crowdhelpers" -> Emit(HelperVector(CrowdName(v)))
+    [] Mode = "crowdpairs"   -> LET pr == CrowdPair(CrowdName(v), v[5]) IN Emit(PairVector(pr[1], pr[2]))
     [] Mode = "names"   -> Emit(HelperVector(v))
     [] Mode = "texts"   -> Emit(HelperVectorT(TextOf(v)))
     [] Mode = "octpairs" -> Emit(PairVector(v[1], v[2]))
